@@ -188,6 +188,14 @@ func judgeRequest(s *Spec, sent *Sent, rec *rig.Record, backendHost string) []fi
 			delete(got, k)
 		}
 	}
+	// The recording backend is a net/http server: its request reader synthesises
+	// "Cache-Control: no-cache" from "Pragma: no-cache" (RFC 7234 5.4) in the record
+	// itself; that header was never on the proxy->backend wire.
+	if p := want["pragma"]; len(p) > 0 && p[0] == "no-cache" {
+		if _, ok := want["cache-control"]; !ok && eq(got["cache-control"], []string{"no-cache"}) {
+			delete(got, "cache-control")
+		}
+	}
 	if sent.H2 {
 		// RFC 9113 8.2.3: cookie crumbs may be joined with "; " when passed into a non-HTTP/2 context
 		if vs, ok := want["cookie"]; ok {
